@@ -39,6 +39,9 @@ def gen(rng, tier):
     c['search'] = {'a': sorted(rng.sample(range(0, 400), rng.choice([0, 1, 5, 30]))),
                    'nb': rng.choice([0, 1, 7, 40])}
     c['search']['b'] = [rng.randrange(-5, 410) for _ in range(c['search']['nb'])]
+    if rng.random() < 0.6:
+        # what staging really passes: particle host ids in file order, i.e. runs of equal values
+        c['search']['b'] = sorted(v for v in c['search']['b'] for _ in range(rng.randrange(1, 4)))
     c['compiled'] = (tier == 'thorough' and rng.random() < 0.05)
     return c
 
